@@ -268,6 +268,9 @@ let () = section register_pool
 
 (* ---- C09 *)
 let register_c09 reg =
+  reg "stage_count_ok" (function
+    | [k; iv; dur; got; slack] -> show_bool (stage_count_ok (zv k) (zv iv) (zv dur) (zv got) (zv slack))
+    | _ -> failwith "arity");
   reg "c09_ok" (function
     | [iv; times; values; st; dr; ex; late] -> show_bool (c09_ok (zv iv) (zlist times) (zlist values) (zv st) (zv dr) (bv ex) (zv late))
     | _ -> failwith "arity")
